@@ -405,6 +405,9 @@ class Recorder:
         """the config the selftests build by hand (direct tool calls)"""
         config = {}
         config["available_vms"] = {"vm1": "only CentOS\n", "vm2": "only Win10\n", "vm3": "only Ubuntu\n"}
+        for vm, restr in vm_strs.items():
+            if restr == "":
+                config["available_vms"][vm] = ""      # an unrestricted vm stands for all of its variants
         config["available_restrictions"] = ["leaves", "normal", "minimal"]
         config["param_dict"] = {"nets": nets}
         config["param_dict"].update(extra or {})
